@@ -125,6 +125,36 @@ def handlers_layer(ctx, drv):
     return res
 
 
+def loop_layer(ctx):
+    """ServeLoop.tla: the serve loop's select between the result of the asynchronous write that ends a stream and the client's next HEADERS
+    frame.  TLC: with the drain rule a legal request is never refused, without it (model mutant) it is; the state the replay constructs
+    (both pending) is reachable.  Binding: that state is built on the real serverConn in-package (fake network, serve loop held through
+    serveMsgCh), many fresh connections per limit because the select is a coin flip."""
+    ctx.tlc('ServeLoop', 'MC_C13_loop_ok.cfg', label='serve loop: wrote/read both pending, drain rule in force - a legal request is never refused')
+    r = ctx.tlc('ServeLoop', 'MC_C13_loop_nodrain.cfg', label='serve loop without the drain rule: must violate LegalNeverRefused (model mutant)', expect_ok=False)
+    if not r.get('violation'):
+        raise vf.Inconclusive('ServeLoop.tla: the mutant without the drain rule is not rejected')
+    r = ctx.tlc('ServeLoop', 'MC_C13_loop_both.cfg', label='serve loop: the both-pending state is reachable (NeverBothPending must be violated)', expect_ok=False)
+    if not r.get('violation'):
+        raise vf.Inconclusive('ServeLoop.tla: both-pending state unreachable')
+    r = ctx.tlc('ServeLoop', 'MC_C13_loop_residual.cfg', label='serve loop, writer goroutine descheduled between conn.Write and the channel send: refusal remains (model-only)', expect_ok=False)
+    residual = bool(r.get('violation'))
+    out = os.path.join(ctx.scratch, 'c13loop.json')
+    p = ctx.overlay_test('pkg/http2', ['common/graph_test.go', 'http2/c13loop_test.go'], '^TestVFC13Loop$', timeout=900,
+                         env={'VF_LOOP_OUT': out, 'VF_LOOP_CONNS': '40' if ctx.tier == 'quick' else '400'}, pkgname='http2')
+    if not os.path.exists(out):
+        raise vf.Inconclusive('serve-loop driver wrote no result (go test rc=%d):\n%s' % (p.returncode, vf.tail(p.stdout, 40)))
+    o = vf.read_json(out)
+    for f in o.get('failures') or []:
+        if f.startswith('setup:') or 'panic' in f:
+            raise vf.Inconclusive('serve-loop driver: %s' % f)
+        ctx.violation({'check': 'C13', 'kind': 'legal_request_refused', 'frame': 'serve_loop_order'}, f, o)
+    if not o.get('failures') and p.returncode != 0:
+        raise vf.Inconclusive('serve-loop driver failed:\n%s' % vf.tail(p.stdout, 40))
+    return {'connections_with_both_events_pending_at_the_select': o['connections'], 'served': o['served'],
+            'model_only_residual_refusal (writer goroutine descheduled before the channel send)': residual}
+
+
 def run(ctx):
     t = ctx.tier
     if t == 'thorough':
@@ -216,9 +246,10 @@ def run(ctx):
         if len(samples) < 4 and p['id'] % 211 == 0:
             samples.append({'frames': trail, 'reactions': [s.get('got') for s in o['steps']]})
     hres = handlers_layer(ctx, drv)
+    lres = loop_layer(ctx)
     if nerr > max(3, len(paths) // 50):
         raise vf.Inconclusive('%d of %d paths failed in the harness, e.g. %s' % (nerr, len(paths), [o['err'] for o in obs if o.get('err')][:2]))
-    cov = {'traces_validated_against_impl': len(paths) - nerr + hres['paths'], 'handler_scheduling_layer': hres, 'samples': samples or [{'frames': [s.get('f') for s in paths[0]['steps']]}],
+    cov = {'traces_validated_against_impl': len(paths) - nerr + hres['paths'], 'handler_scheduling_layer': hres, 'serve_loop_event_order': lres, 'samples': samples or [{'frames': [s.get('f') for s in paths[0]['steps']]}],
            'steps_compared': nsteps, 'graph_edges_total': len(g['edges']), 'live_edges_sampled': total, 'edge_sample_fraction': sample,
            'reactions_accepted_by_rfc_latitude_only': diverge, 'paths_cut_at_unobservable_step_inside_open_header_block': unobservable[0],
            'rule': 'paths from the initial state covering a seeded sample of the live edges of the TLC graph (frame alphabet: SETTINGS ok/ack/bad, HEADERS/CONTINUATION with '
